@@ -445,6 +445,11 @@ PlayerRedeemChips 增購籌碼
   - 適用時機: 增購
 */
 func (te *tableEngine) PlayerRedeemChips(joinPlayer JoinPlayer) error {
+	// like a re-buy (PlayerReserve): serialized with the opening of a hand, whose table clone would
+	// otherwise drop chips added at that moment
+	te.lock.Lock()
+	defer te.lock.Unlock()
+
 	// find player index in PlayerStates
 	playerIdx := te.table.FindPlayerIdx(joinPlayer.PlayerID)
 	if playerIdx == UnsetValue {
